@@ -52,6 +52,10 @@ type PoolScenario struct {
 	BufSize int `json:"bufSize,omitempty"`
 	// SlowAdvance: the "advance-time" event lets ten seconds pass (a backend that answers very late).
 	SlowAdvance bool `json:"slowAdvance,omitempty"`
+	// HalfClose: a pooled connection can also be cut in one direction only: the backend stops
+	// sending (the pool's reader sees a clean end of stream) but its receiving side stays open and
+	// unread, so a write larger than StallBytes blocks until the pool closes the connection itself.
+	HalfClose bool `json:"halfClose,omitempty"`
 	// AltCap > 0: at every decision only the default and its AltCap nearest alternatives are explored.
 	AltCap int `json:"altCap,omitempty"`
 }
@@ -293,7 +297,7 @@ func RunPool(sc PoolScenario, prefix []int) *PoolResult {
 			}
 		}
 		for j, pc := range pconns {
-			if pc.PendingFrames() > 0 && !pc.PeerClosed {
+			if pc.PendingFrames() > 0 && !pc.PeerClosed && !pc.IsSendShut() {
 				opts = append(opts, fmt.Sprintf("deliver-conn%d", j))
 				evs = append(evs, ev{"deliver", j, 0})
 			}
@@ -307,9 +311,13 @@ func RunPool(sc PoolScenario, prefix []int) *PoolResult {
 		if cutsLeft > 0 && !started[n] {
 			mu.Lock()
 			for j, pc := range pconns {
-				if !pc.PeerClosed && !pc.LocalClosed {
+				if !pc.PeerClosed && !pc.LocalClosed && !pc.IsSendShut() {
 					opts = append(opts, fmt.Sprintf("cut-conn%d", j))
 					evs = append(evs, ev{"cut", j, 0})
+					if sc.HalfClose {
+						opts = append(opts, fmt.Sprintf("half-close-conn%d", j))
+						evs = append(evs, ev{"halfclose", j, 0})
+					}
 					if a, _ := pc.Residue(); a > 1 {
 						opts = append(opts, fmt.Sprintf("cut-conn%d-mid-reply", j))
 						evs = append(evs, ev{"cutmid", j, 0})
@@ -366,6 +374,13 @@ func RunPool(sc PoolScenario, prefix []int) *PoolResult {
 			refuse = sc.Refusals
 			mu.Unlock()
 			pconns[e.i].Cut()
+		case "halfclose":
+			cutsLeft--
+			res.Cuts++
+			mu.Lock()
+			refuse = sc.Refusals
+			mu.Unlock()
+			pconns[e.i].HalfClose()
 		case "cutat":
 			cutsLeft--
 			res.Cuts++
